@@ -1,8 +1,11 @@
 """Gen/C04Headers.lean — every `defpacket` layout of the source tree (tie A).
 
 Finds the modules that use `pyatv.support.packet.defpacket` (source scan), imports them,
-and reads from each packet class the `struct` format string and the field names (closure
-of `decode`: `fmt`, `msg_type`) plus `.length` (= struct.calcsize).  Printed as data only;
+and determines for each packet class the `struct` format and the field names: a format string
+or compiled `struct.Struct` captured by the class's methods is taken when the class behaves
+accordingly (a probe tuple encodes to the same bytes and decodes back), otherwise the layout is
+PROBED behaviourally (marker values through the real encode/decode); field names come from
+decoding a zero buffer; `.length` is read from the class.  Printed as data only;
 the model (`PyatvModel/C04/Headers/Model.lean`) interprets the format characters.
 """
 import importlib
@@ -11,7 +14,111 @@ import re
 import struct
 
 
-def find_packets():
+def _closure_values(obj):
+    """every value captured by the closures of the class's static methods"""
+    vals = []
+    for name in ("decode", "encode", "extend"):
+        fn = getattr(obj, name, None)
+        fn = getattr(fn, "__func__", fn)
+        code, clo = getattr(fn, "__code__", None), getattr(fn, "__closure__", None) or ()
+        if code is None:
+            continue
+        for var, cell in zip(code.co_freevars, clo):
+            try:
+                vals.append((var, cell.cell_contents))
+            except ValueError:
+                pass
+    return vals
+
+
+def _probe_values(fmt):
+    _order, fields = parse_fmt(fmt)
+    vals = []
+    for i, (code, n) in enumerate(fields):
+        if code == "s":
+            vals.append(bytes((17 * i + j + 1) % 256 for j in range(n)))
+        else:
+            w = struct.calcsize(">" + code)
+            vals.append(int.from_bytes(bytes((29 * i + j + 1) % 256 for j in range(w)), "big") % (256 ** w))
+    return vals
+
+
+def _confirms(obj, fmt):
+    """does `fmt` describe what the class really does?  (behavioural confirmation of a format
+    string found in the code: same bytes for a probe tuple with pairwise distinct bytes, same
+    size, and the probe decodes back)"""
+    try:
+        vals = _probe_values(fmt)
+        data = obj.encode(*vals)
+        return (struct.calcsize(fmt) == obj.length and data == struct.pack(fmt, *vals)
+                and list(obj.decode(data)) == vals)
+    except Exception:
+        return False
+
+
+def probe_layout(obj):
+    """Determine the layout BEHAVIOURALLY (no format string found in the code): field kinds from
+    decoding an all-zero buffer, widths / offsets / byte order from encoding marker values."""
+    n = obj.length
+    zero = obj.decode(bytes(n))
+    kinds = ["s" if isinstance(v, (bytes, bytearray)) else "i" for v in zero]
+    base = [b"" if k == "s" else 0 for k in kinds]
+    fields, order, pos = [], None, 0
+    for i, k in enumerate(kinds):
+        vals = list(base)
+        if k == "s":
+            vals[i] = b"\xff" * (n + 1)
+            marks = [j for j, b in enumerate(obj.encode(*vals)) if b == 0xFF]
+            width = len(marks)
+            assert marks == list(range(pos, pos + width)), (i, marks, pos)
+            fields.append(("s", width))
+        else:
+            width = None
+            for cand in (1, 2, 4, 8):
+                vals[i] = 256 ** cand - 1
+                try:
+                    enc = obj.encode(*vals)
+                except struct.error:
+                    break
+                width, marks = cand, [j for j, b in enumerate(enc) if b == 0xFF]
+            assert width is not None and marks == list(range(pos, pos + width)), (i, width, pos)
+            vals[i] = -1
+            try:
+                obj.encode(*vals)
+                raise AssertionError("signed field %d: not modelled" % i)
+            except struct.error:
+                pass
+            if width > 1:
+                vals[i] = 1
+                one = obj.encode(*vals).index(1)
+                this = ">" if one == pos + width - 1 else "<"
+                assert order in (None, this), "mixed byte order"
+                order = this
+            fields.append(({1: "B", 2: "H", 4: "I", 8: "Q"}[width], 1))
+        pos += width
+    assert pos == n, (pos, n)
+    return (order or ">") + "".join((str(c) + "s") if k == "s" else k for k, c in fields)
+
+
+def layout_format(obj):
+    """-> (struct format, how it was found).  A format string or a compiled `struct.Struct`
+    captured by the class's methods is used when the class behaves accordingly; otherwise the
+    layout is probed."""
+    cands = []
+    for var, val in _closure_values(obj):
+        if isinstance(val, str):
+            cands.append((0 if var == "fmt" else 1, val, "format string `%s` in the code" % var))
+        elif isinstance(val, struct.Struct):
+            cands.append((0, val.format if isinstance(val.format, str) else val.format.decode(), "compiled struct.Struct `%s` in the code" % var))
+    for _prio, fmt, how in sorted(cands, key=lambda c: c[0]):
+        if _confirms(obj, fmt):
+            return fmt, how
+    fmt = probe_layout(obj)
+    assert _confirms(obj, fmt), ("probed layout not confirmed", fmt)
+    return fmt, "PROBED behaviourally (no usable format string found in the code)"
+
+
+def find_packets(with_how=False):
     import pyatv
 
     root = os.path.dirname(pyatv.__file__)
@@ -22,7 +129,7 @@ def find_packets():
                 continue
             path = os.path.join(dirpath, f)
             text = open(path, encoding="utf-8").read()
-            if "import defpacket" in text:
+            if "defpacket" in text and not path.endswith(os.path.join("support", "packet.py")):
                 rel = os.path.relpath(path, os.path.dirname(root))[:-3].replace(os.sep, ".")
                 mods.append(rel)
     out = []
@@ -30,12 +137,11 @@ def find_packets():
         mod = importlib.import_module(modname)
         for attr in sorted(vars(mod)):
             obj = getattr(mod, attr)
-            dec = getattr(obj, "decode", None)
-            if not (isinstance(obj, type) and dec is not None and hasattr(obj, "encode") and hasattr(obj, "extend")):
+            if not (isinstance(obj, type) and all(hasattr(obj, a) for a in ("decode", "encode", "extend", "length"))):
                 continue
-            free = dict(zip(dec.__code__.co_freevars, (c.cell_contents for c in dec.__closure__)))
-            fmt, msg_type = free["fmt"], free["msg_type"]
-            out.append((modname, attr, obj, fmt, list(msg_type._fields)))
+            fmt, how = layout_format(obj)
+            fnames = list(obj.decode(bytes(obj.length))._fields)
+            out.append((modname, attr, obj, fmt, fnames) + ((how,) if with_how else ()))
     return out
 
 
@@ -54,7 +160,7 @@ def parse_fmt(fmt):
 
 
 def generate():
-    packets = find_packets()
+    packets = find_packets(with_how=True)
     assert packets, "no defpacket classes found"
     names = [a for _m, a, *_ in packets]
     assert len(set(names)) == len(names), names
@@ -64,12 +170,13 @@ def generate():
             "structure Packet where",
             "  name : String", "  module : String", "  order : Char",
             "  fields : List (String × Char × Nat)", "  size : Nat\n"]
-    for modname, attr, obj, fmt, fnames in packets:
+    for modname, attr, obj, fmt, fnames, how in packets:
         order, fields = parse_fmt(fmt)
         assert len(fields) == len(fnames), (fmt, fnames)
         assert obj.length == struct.calcsize(fmt)
         fl = ", ".join(f'("{n}", \'{c}\', {k})' for n, (c, k) in zip(fnames, fields))
-        body.append(f"/-- {modname}.{attr}: struct format `{fmt}` -/")
+        note = f" ({how})" if how.startswith("PROBED") else ""
+        body.append(f"/-- {modname}.{attr}: struct format `{fmt}`{note} -/")
         body.append(f"def {attr} : Packet :=\n  {{ name := \"{attr}\", module := \"{modname}\", order := '{order}',\n"
                     f"    fields := [{fl}],\n    size := {obj.length} }}\n")
     body.append("def all : List Packet := [" + ", ".join(names) + "]\n")
